@@ -8,6 +8,14 @@ import Apimodel.Validators
 import Apimodel.SerSchema
 import Apimodel.Refs
 import Apimodel.Versions
+import Apimodel.AcceptThm
+import Apimodel.NoCrashThm
+import Apimodel.ErrorsThm
+import Apimodel.ImageThm
+import Apimodel.NoCopyThm
+import Apimodel.SchemaThm
+import Apimodel.CoerceThm
+import Apimodel.UnionThm
 import Lean.Data.Json
 open Lean Api
 
@@ -274,8 +282,14 @@ def handle (line : String) : String :=
               pure (Json.mkObj [("id", id), ("model", outcomeJson (deserializeC o env cs ty d)),
                                 ("strict", outcomeJson (deserialize o cs ty d))])
           | .error _ =>
+          let inE := ty.efrag && ty.acc && ty.nouq && d.json
           pure (Json.mkObj [("id", id), ("model", outcomeJson (deserialize o cs ty d)),
-                            ("conforms", conforms o.additionalProperties o.fallBackOnDefault cs ty d)])
+                            ("conforms", conforms o.additionalProperties o.fallBackOnDefault cs ty d),
+                            ("scope", Json.mkObj [("acc", ty.acc), ("nouq", ty.nouq), ("efrag", ty.efrag),
+                               ("scope", ty.scope), ("sch", ty.sch), ("cfrag", ty.cfrag), ("nofloat", ty.noFloat),
+                               ("json", d.json), ("wf", d.wf), ("sane", d.sane)]),
+                            ("violations", if inE then errsJson (violations cs ty d) else Json.null),
+                            ("image", if ty.efrag && ty.scope then valJson (image ty d) else Json.null)])
       | "roundtrip" => do
           let o ← parseOpts (← j.getObjVal? "opts")
           let so ← parseSOpts (← j.getObjVal? "sopts")
